@@ -14,7 +14,7 @@ use serde_json::{json, Value};
 use std::collections::BTreeSet;
 use std::time::Duration;
 
-pub const RULE: &str = "cases = (input-free program of <= 14 commands incl. loops, jumps, ♡ and exits through stack 1/2, debugger command history of <= 40 lines \
+pub const RULE: &str = "cases = (input-free program of <= 14 commands incl. loops, jumps, ♡ and exits through stack 1/2, written on one or several source lines, debugger command history of <= 40 lines \
 over n/next p/previous r/run s/state b/break [N] h/help unknown-words blank lines, with N from 0..len+2, huge, non-numeric, empty; with or without a final exit). \
 The program's trajectory (state after k commands for every k, output of every step) is computed once with the library interpreter in lock-step with the reference \
 interpreter; the debugger model is then the position k on that trajectory plus the breakpoint set. The real transcript of `hyeong debug --color never` is cut at the \
